@@ -93,6 +93,52 @@ Proof.
   intros H. eapply Forall_impl; [|exact H]. intros t Ht. rewrite (decode_tex_supported m t Ht). exact I.
 Qed.
 
+(* ---------------------------------------------------------------- the f32 payload size (CTPK, BCH) *)
+Lemma rne24_small q : q < 2 ^ 24 -> rne24 q = q.
+Proof.
+  intros H. unfold rne24. destruct (N.eq_dec q 0) as [->|NZ]; [reflexivity|].
+  assert (L : N.log2 q < 24) by (apply N.log2_lt_pow2; lia).
+  replace (N.log2 q - 23) with 0 by lia. reflexivity.
+Qed.
+Lemma rne24_shift c k : c < 2 ^ 24 -> rne24 (c * 2 ^ k) = c * 2 ^ k.
+Proof.
+  intros H. destruct (N.eq_dec c 0) as [->|NZ]; [reflexivity|].
+  unfold rne24. rewrite N.log2_mul_pow2 by lia.
+  assert (L : N.log2 c < 24) by (apply N.log2_lt_pow2; lia).
+  set (s := k + N.log2 c - 23). destruct (N.eqb_spec s 0) as [_|Hs]; [reflexivity|].
+  assert (Hsk : s <= k) by (unfold s; lia).
+  assert (E : c * 2 ^ k = (c * 2 ^ (k - s)) * 2 ^ s).
+  { rewrite <- N.mul_assoc, <- N.pow_add_r. f_equal. f_equal. lia. }
+  assert (P : 2 ^ s <> 0) by (apply N.pow_nonzero; lia).
+  assert (R : (c * 2 ^ k) mod 2 ^ s = 0) by (rewrite E; apply N.mod_mul, P).
+  assert (D : (c * 2 ^ k) / 2 ^ s = c * 2 ^ (k - s)) by (rewrite E; apply N.div_mul, P).
+  rewrite R, D.
+  assert (Hh : 0 < 2 ^ (s - 1)) by (pose proof (N.pow_nonzero 2 (s - 1)); lia).
+  destruct (N.ltb_spec (2 ^ (s - 1)) 0) as [?|_]; [lia|].
+  destruct (N.eqb_spec 0 (2 ^ (s - 1))) as [?|_]; [lia|]. cbn [orb andb]. symmetry. exact E.
+Qed.
+
+(* the request is exact for every payload below 8 MiB ... *)
+Lemma f32_exact_small t : bpp2 (t_fmt t) * t_w t * t_h t < 2 ^ 24 -> f32_exact t.
+Proof. intros H. unfold f32_exact, payload_size32, payload_size. rewrite rne24_small by exact H. reflexivity. Qed.
+(* ... and for power-of-two sides of any size *)
+Lemma f32_exact_pow2 t a b : t_w t = 8 * 2 ^ a -> t_h t = 8 * 2 ^ b -> f32_exact t.
+Proof.
+  intros Hw Hh. unfold f32_exact, payload_size32, payload_size. rewrite Hw, Hh.
+  replace (bpp2 (t_fmt t) * (8 * 2 ^ a) * (8 * 2 ^ b)) with (bpp2 (t_fmt t) * 2 ^ (6 + a + b)).
+  2:{ rewrite !N.pow_add_r. change (2 ^ 6) with 64. lia. }
+  rewrite rne24_shift; [reflexivity|].
+  unfold bpp2. destruct (t_fmt t) as [|p]; [reflexivity|]. do 4 (destruct p as [p|p|]; try reflexivity).
+Qed.
+(* it is NOT exact in general: a 4097 x 4099 L4 texture has 8396801 bytes (and a nibble), the reader asks for 8396802 *)
+Lemma f32_inexact_witness : payload_size 10 4097 4099 = 8396801 /\ payload_size32 10 4097 4099 = 8396802.
+Proof. split; vm_compute; reflexivity. Qed.
+
+(* supported textures of the containers that compute the payload size in f32 (CTPK, BCH) *)
+Definition supported3ds_f32 (t : tex) : Prop := supported3ds t /\ f32_exact t.
+Lemma supported_f32_split ts : Forall supported3ds_f32 ts -> Forall supported3ds ts /\ Forall f32_exact ts.
+Proof. intros H. split; (eapply Forall_impl; [|exact H]); intros t Ht; apply Ht. Qed.
+
 (* ---------------------------------------------------------------- TPL *)
 Lemma b2s_loop_length data olen : forall pairs out, length (b2s_loop data olen pairs out) = length out.
 Proof.
